@@ -273,6 +273,10 @@ func (matrix *SparseInt32Matrix) T() Matrix {
   for k1, value := range matrix.values.values {
     // transform indices so that iterators operate correctly
     i1, j1 := matrix.ij(k1)
+    if i1 < 0 || i1 >= matrix.rows || j1 < 0 || j1 >= matrix.cols {
+      // element of the underlying storage that is not part of this slice
+      continue
+    }
     k2 := m.index(j1, i1)
     m.values.values[k2] = value
     m.values.indexInsert(k2)
